@@ -154,9 +154,16 @@ var notifySeqs = [][]string{
 // fired (by a harness goroutine) from inside Start of a component of the generation being brought up, or
 // from inside Shutdown of a component of the generation being torn down by a reload. No other triggers and
 // only single-event reload rounds, so that the resolver's one-slot channel is empty at the firing point.
-func genDoubleNotify(rng *rand.Rand, k int64) *History {
+func genDoubleNotify(rng *rand.Rand, k int64, race bool) *History {
 	h := &History{Class: "double-notify"}
 	seq := notifySeqs[k%int64(len(notifySeqs))]
+	if race && seq[0] == "error" {
+		// A notification that is still in flight (its sender parked in the one-slot channel) when the watch error
+		// before it makes the collector shut down is, for the race detector, a send concurrent with the
+		// resolver's close(watcher): a provider that goes on notifying after it reported a watch error is
+		// outside the contract. The error-first pairs therefore run in the plain build only.
+		seq = notifySeqs[(k/2)%2]
+	}
 	point := (k / int64(len(notifySeqs))) % 5
 	for g := 1; g <= 4; g++ {
 		h.Gens = append(h.Gens, GenPlan{NRecv: 1 + rng.Intn(3), NExp: 1 + rng.Intn(2)})
@@ -777,7 +784,7 @@ func run_(c *driver.Ctx) {
 		if !c.Mine(g) {
 			continue
 		}
-		h := genDoubleNotify(c.CaseRand(g), i)
+		h := genDoubleNotify(c.CaseRand(g), i, c.Variant == "race")
 		c.Observe("double_notify_histories", 1)
 		runHistory(c, h, limit)
 	}
@@ -817,7 +824,8 @@ func main() {
 			"Non-trivial: the executed history contains a reload (a second Retrieve) or at least two stop events; distinct = canonical history",
 		Assumptions: []string{
 			"GetState() can only be sampled: first sample Starting, nothing but Closed after Closed, no component created/started once Closed was seen, Closed after every run that ended on a stop path",
-			"the harness provider notifies at most once per Retrieved, never after Close/Shutdown and never from a foreign goroutine once a stop event was issued (confmap.Resolver closes its channel on shutdown)",
+			"back-to-back watcher notifications (class double-notify): fired by a harness goroutine from inside Start/Shutdown while the loop is busy; the callback continues only when the first sits in the resolver's one-slot channel and the sender is parked in the next send; nothing is started after a watch error could have been consumed; error-first pairs run in the plain build only (a parked send at the resolver's close(watcher) is a send/close race for the detector)",
+			"the harness provider otherwise notifies at most once per Retrieved, never after Close/Shutdown and never from a foreign goroutine once a stop event was issued (confmap.Resolver closes its channel on shutdown)",
 			"a stop event must be honoured when it was fired with the loop idle in Running (and no reload pending for Shutdown()), or is sticky by nature (context cancel, a watcher error already handed to the resolver, a termination signal once the collector's handlers are registered and at most 3 signals are pending, an accepted FatalError event); a Shutdown() issued before Run, while starting or while reloading only has to be safe; the history always ends with a final stop at idle",
 			"bring-up failure paths (failed Start, invalid configuration, retrieve error) and a failing Shutdown of the retiring service: only 'Run returns the error, everything started is shut down' is demanded; final state and provider shutdown are demanded on stop paths only",
 		},
